@@ -36,6 +36,9 @@ type vfC09Case struct {
 	// InHandler: the application resumes synchronously inside the Disconnected event handler (what a StreamManager
 	// does) instead of after the event has been delivered
 	InHandler bool `json:"in_handler,omitempty"`
+	// MandatorySession: the server requires the legacy session request on fresh binds (its result is a stanza: if the
+	// client has stream management enabled before asking for it, the result counts like any other)
+	MandatorySession bool `json:"mandatory_session,omitempty"`
 }
 
 type vfC09Obs struct {
@@ -44,6 +47,8 @@ type vfC09Obs struct {
 	resumeH []string   // h of <resume/> on connection k>=1
 	prevIds []string
 	perr    error
+	// negStanzas[k]: stanzas the peer sent during the negotiation of connection k after its <enabled/>
+	negStanzas []int
 }
 
 func vfC09Run(run *vfkit.Run, cs *vfC09Case) {
@@ -96,6 +101,17 @@ func vfC09Run(run *vfkit.Run, cs *vfC09Case) {
 		if refused {
 			o.Resume = "failed"
 		}
+		if cs.MandatorySession {
+			o.Session = "mandatory"
+		}
+		defer func() {
+			obs.mu.Lock()
+			for len(obs.negStanzas) <= k {
+				obs.negStanzas = append(obs.negStanzas, 0)
+			}
+			obs.negStanzas[k] = o.StanzasAfterEnabled
+			obs.mu.Unlock()
+		}()
 		if k == 0 {
 			if _, err := pc.Negotiate(o); err != nil {
 				obs.perr = fmt.Errorf("conn %d: %v", k, err)
@@ -271,6 +287,11 @@ func vfC09Run(run *vfkit.Run, cs *vfC09Case) {
 			}
 		}
 		obs.mu.Lock()
+		if k < len(obs.negStanzas) {
+			total += obs.negStanzas[k] // what the server sent on the session before the history proper (normally nothing)
+		}
+		obs.mu.Unlock()
+		obs.mu.Lock()
 		hs := append([]string(nil), obs.answers[k]...)
 		obs.mu.Unlock()
 		j := 0
@@ -353,6 +374,7 @@ func TestVf_C09(t *testing.T) {
 					cs.PartialCut = append(cs.PartialCut, nseg > 1 && r.Intn(2) == 0)
 				}
 				cs.InHandler = nseg > 1 && r.Intn(2) == 0
+				cs.MandatorySession = r.Intn(3) == 0
 				run.Case(cs)
 				if c < 2 {
 					var kinds []string
